@@ -12,7 +12,8 @@
 (*                contexts exist or are created later                                            *)
 (* The registry of module implementations (Mods, SrcMods) is read-only.                          *)
 (* `shared` is the state the IMPLEMENTATION really shares between contexts:                      *)
-(*   tattr  an attribute assigned on a builtin type (type dictionaries are process-wide)         *)
+(*   tattr  an attribute assigned on a type defined in Go, per kind of type (TypeKinds): their     *)
+(*          dictionaries are process-wide                                                         *)
 (*   env    a mutable object sitting in a module implementation's Globals (os.environ; the       *)
 (*          per-instance copy of Globals is shallow)                                             *)
 (*   pe     the package-level variable vm.PrintExpr that REPL.Run rebinds for the duration of a   *)
@@ -40,6 +41,13 @@ Mods     == {"math", "umod"}   \* math: implemented in Go; umod: Python source f
 SrcMods  == {"umod"}           \* importing these runs a body that prints "body", once per context
 SysLists == {"path", "argv"}
 
+\* Types defined in Go come from three places, and the type is a parameter of SetTypeAttr/GetTypeAttr:
+\*   "builtin"   found in builtins (int, list, ValueError, object ...): package-level types of package py
+\*   "stdlib"    exported by a Go-implemented module (array.array, binascii.Error ...): created by other
+\*               packages; the harness enumerates them from the live interpreter
+\*   "embedder"  registered through the embedding API (py.NewType in a module the harness registers)
+TypeKinds == {"builtin", "stdlib", "embedder"}
+
 Op(o, a) == [op |-> o, a |-> a]
 OpList == << Op("SetGlobal", ""), Op("GetGlobal", ""),
              Op("Import", "math"), Op("Import", "umod"),
@@ -50,7 +58,9 @@ OpList == << Op("SetGlobal", ""), Op("GetGlobal", ""),
              Op("ReadSys", "path"), Op("ReadSys", "argv"),
              Op("RebindBuiltin", ""), Op("CallBuiltin", ""),
              Op("RebindStdout", ""), Op("Print", ""),
-             Op("SetTypeAttr", ""), Op("GetTypeAttr", ""),
+             Op("SetTypeAttr", "builtin"), Op("GetTypeAttr", "builtin"),
+             Op("SetTypeAttr", "stdlib"), Op("GetTypeAttr", "stdlib"),
+             Op("SetTypeAttr", "embedder"), Op("GetTypeAttr", "embedder"),
              Op("MutateImplObject", ""), Op("ReadImplObject", ""),
              Op("ReplLine", "") >>
 Ops == {OpList[i] : i \in 1..Len(OpList)}
@@ -103,7 +113,7 @@ Local0 == [main     |-> [g |-> None],
            builtins |-> None,
            sysout   |-> FALSE,
            replst   |-> [mid |-> FALSE, saved |-> "default"]]
-View0  == [tattr |-> None, env |-> None, pe |-> "default"]
+View0  == [tattr |-> [k \in TypeKinds |-> None], env |-> None, pe |-> "default"]
 
 \* stdout lines are joined with "/"; an exception is the last segment "exc:<Class>"
 Cat(a, b) == IF a = "" THEN b ELSE IF b = "" THEN a ELSE a \o "/" \o b
@@ -139,9 +149,10 @@ Eff(c, st, L, S, pol) ==
        [] o = "RebindStdout"  -> R([L EXCEPT !.sysout = TRUE], S, "")
        [] o = "Print"         -> R(L, S, (IF L.sysout THEN "own:" ELSE "std:") \o v)
        \* Python allows an implementation to refuse assignment on a builtin type (CPython: TypeError)
-       [] o = "SetTypeAttr" -> IF pol = "reject" THEN R(L, S, "exc:TypeError")
-                                                 ELSE R(L, [S EXCEPT !.tattr = Some(v)], "")
-       [] o = "GetTypeAttr" -> R(L, S, IF S.tattr.has THEN S.tattr.v ELSE "exc:AttributeError")
+       \* (the reaction may differ from one kind of type to another: pol is a function of the kind)
+       [] o = "SetTypeAttr" -> IF pol[a] = "reject" THEN R(L, S, "exc:TypeError")
+                                                    ELSE R(L, [S EXCEPT !.tattr[a] = Some(v)], "")
+       [] o = "GetTypeAttr" -> R(L, S, IF S.tattr[a].has THEN S.tattr[a].v ELSE "exc:AttributeError")
        [] o = "MutateImplObject" -> R(L, [S EXCEPT !.env = Some(v)], "")
        [] o = "ReadImplObject"   -> R(L, S, IF S.env.has THEN S.env.v ELSE "exc:KeyError")
        [] o = "ReplLine" /\ st.ph = 1 ->
@@ -167,7 +178,10 @@ Pack(c) == [main |-> main[c], store |-> store[c], syspath |-> syspath[c], sysarg
 CurStep(c) == LET o == OpList[script[c][ip[c]]] IN
               [o |-> o, i |-> ip[c], ph |-> IF o.op # "ReplLine" THEN 0 ELSE IF replst[c].mid THEN 2 ELSE 1]
 
-UsesTypes(a) == \E c \in Ctx : \E i \in 1..Len(a[c]) : OpList[a[c][i]].op = "SetTypeAttr"
+\* the kinds of type that assignment a assigns on; only for these is the reaction a choice
+SetKinds(a) == { k \in TypeKinds : \E c \in Ctx : \E i \in 1..Len(a[c]) : OpList[a[c][i]] = Op("SetTypeAttr", k) }
+PolicyChoices(a) == { p \in [TypeKinds -> Policies \cup {"percontext"}] :
+                        \A k \in TypeKinds : IF k \in SetKinds(a) THEN p[k] \in Policies ELSE p[k] = "percontext" }
 
 \* the configuration classes matter where sys.path/sys.argv are built: every assignment in which two contexts
 \* touch them (and that is not longer than ConfigDepth) is explored under every configuration; the others
@@ -181,7 +195,7 @@ ConfigChoices(a) == IF SysPair(a) /\ TotalLen(a) <= ConfigDepth THEN Configs ELS
 Init == /\ seed \in Seeds
         /\ started = FALSE
         /\ script = [c \in Ctx |-> <<>>]
-        /\ policy = "percontext"
+        /\ policy = [k \in TypeKinds |-> "percontext"]
         /\ config = "explicit"
         /\ lazy = FALSE
         /\ solo = [c \in Ctx |-> <<>>]
@@ -204,7 +218,7 @@ Pick == /\ ~started
              /\ script' = a
              /\ lazy' = (TotalOps(a) % 2 = 1)
              /\ \E cf \in ConfigChoices(a) : config' = cf
-             /\ \E pol \in (IF UsesTypes(a) THEN Policies ELSE {"percontext"}) :
+             /\ \E pol \in PolicyChoices(a) :
                   /\ policy' = pol
                   /\ solo' = [c \in Ctx |-> SoloOf(c, a[c], pol)]
         /\ UNCHANGED <<seed, ip, main, store, syspath, sysargv, builtins, sysout, replst, shared, obs, order>>
@@ -247,7 +261,7 @@ LeakWitness ==
      PrintT(ToJson([leak |-> Component(o.op), at |-> o.op]))
 
 \* printed once: how operations map to state components (used by the harness for finding keys)
-Meta == [meta |-> [o \in {OpList[i].op : i \in 1..Len(OpList)} |-> Component(o)],
+Meta == [typekinds |-> TypeKinds, meta |-> [o \in {OpList[i].op : i \in 1..Len(OpList)} |-> Component(o)],
          oplist |-> OpList, srcmods |-> SrcMods]
 ASSUME PrintT(ToJson(Meta))
 =============================================================================
